@@ -49,6 +49,11 @@ impl ContinuousOutput {
                     cont[i * coeffs_per_state + coeffs_per_state - 1] = 1.0;
                 }
             }
+            Method::RK4 => {
+                // Cubic Hermite layout: left state, left slope, right slope, right state
+                cont[0..n].copy_from_slice(y0);
+                cont[3 * n..4 * n].copy_from_slice(y0);
+            }
             _ => {
                 // RK methods: cont[0..n] = y0, rest = 0 for zero derivatives
                 cont[0..n].copy_from_slice(y0);
